@@ -14,7 +14,7 @@ import impl
 RULE = ("fixed families at scale: reflection-free cascade of N two-ports with exact unit-modulus rational phases "
         "(closed form: product), cascade of N reflection-free attenuators with 300-600 dB of total loss (closed form, error relative to the tiny transmission), cascade of N weakly reflecting lossy two-ports (reference: dense numpy network solve), "
         "n x n mesh of beam splitters and phase shifters (unitarity + dense reference), lossy resonant chain of "
-        "mirror-waveguide cells, d-level nest of a two-port, the lossy cascade cut into three large sub-solvers, a chain of phase shifters each with its own parameter name, meshes of directly connected couplers (10 and 13 modes; thorough up to 24); sizes quick 500 / 300 / 10x10 / 100 / 40 / 600 / 150, thorough "
+        "mirror-waveguide cells, d-level nest of a two-port, the lossy cascade cut into three large sub-solvers (placed as structures and placed with put()), a chain of phase shifters each with its own parameter name, meshes of directly connected couplers (10 and 13 modes; thorough up to 24); sizes quick 500 / 300 / 10x10 / 100 / 40 / 600 / 150, thorough "
         "2000 / 1000 / 20x20 / 400 / 60 / 3000 / 1000; distinct = family x size; all non-trivial")
 TRUSTED = ["numpy dense solve of the global network system as reference at scale", "IEEE-754 accumulation behaviour is measured, not proved"]
 ASSUMPTIONS = ["relative accuracy target 1e-9"]
@@ -207,7 +207,12 @@ def family_resonant(ctx, n, rng):
     return rel_err(T, R)
 
 
-def family_blocked(ctx, n, rng):
+def family_blocked_put(ctx, n, rng):
+    """as family_blocked, the blocks placed the way a user places a building block: `blk.put()` inside `with parent:`"""
+    return family_blocked(ctx, n, rng, use_put=True)
+
+
+def family_blocked(ctx, n, rng, use_put=False):
     """the lossy cascade cut into three sub-solvers, each holding a third of the chain, chained in a parent:
     large sub-circuits *inside* a hierarchy"""
     L = impl.lk()
@@ -228,8 +233,12 @@ def family_blocked(ctx, n, rng):
     first = None
     for b in range(0, n, size):
         blk = build_chain(mats[b:b + size])
-        st = L.Structure(solver=blk)
-        parent.add_structure(st)
+        if use_put:
+            with parent:
+                st = blk.put()
+        else:
+            st = L.Structure(solver=blk)
+            parent.add_structure(st)
         if prev is not None:
             parent.connect(prev, "OUT", st, "IN")
         else:
@@ -299,7 +308,7 @@ def run(ctx):
             ("attenuating-cascade", family_attenuating, 400 if q else 2000),
             ("weak-reflection-cascade", family_weak_reflection, 400 if q else 2000),
             ("mesh", family_mesh, 10 if q else 20), ("resonant-chain", family_resonant, 100 if q else 400),
-            ("nest", family_nest, 40 if q else 60), ("blocked-cascade", family_blocked, 600 if q else 3000),
+            ("nest", family_nest, 40 if q else 60), ("blocked-cascade", family_blocked, 600 if q else 3000), ("blocked-cascade-put", family_blocked_put, 600 if q else 3000),
             ("many-parameters", family_many_params, 150 if q else 1000), ("coupler-mesh", family_coupler_mesh, 13 if q else 24)]
     import sys
     measured = {}
